@@ -66,6 +66,7 @@ package sm4
 //@ requires out: len(out) >= len(in)
 //@ requires ctr: len(preCounter) == 16
 //@ requires max: len(in) <= 68719476704
+//@ assigns out[0:len(in)]
 //@ loop 1
 //@ invariant i: 0 <= i && i <= blocks256 && blockCount == 16 * i
 //@ invariant sl: len(in) == l - 256 * i && len(out) >= len(in)
